@@ -397,6 +397,7 @@ impl G {
     pub fn run_mode(&mut self) {
         let mode = self.mode.clone();
         match mode.as_str() {
+            "c01" => self.mode_c01(),
             "c03" => self.mode_c03(),
             "c04" => self.mode_c04(),
             "c05" => self.mode_c05(),
@@ -494,6 +495,57 @@ impl G {
         let rng = &mut self.rng;
         let k = rng.below(GENERIC_KINDS as u64) as u8;
         FR::Method(ch, SM::Generic(k, s(rng), (rng.next() >> rng.below(40)) as u32, rng.below(1000) as u32))
+    }
+
+    /// C01 at the thread level: whole buffers from several mailboxes, any event order, writes
+    /// fragmented at every offset
+    fn mode_c01(&mut self) {
+        self.no_random_teardown = true;
+        self.setup_channels(1, 4);
+        let ids = self.open_ids();
+        if ids.is_empty() {
+            return;
+        }
+        let n = self.rng.range(3, 25);
+        for _ in 0..n {
+            if self.w.errored || self.w.dead {
+                return;
+            }
+            match self.rng.below(10) {
+                0..=3 => {
+                    let ch = *self.rng.pick(&ids);
+                    let k = self.rng.range(1, 3);
+                    for _ in 0..k {
+                        self.client_send(ch);
+                    }
+                }
+                4 | 5 => {
+                    let ch = *self.rng.pick(&ids);
+                    self.w.event_chan(ch);
+                }
+                6..=8 => {
+                    // a write that takes the buffer in pieces, blocking anywhere
+                    let len = self.w.outbuf_len();
+                    let mut o = Vec::new();
+                    let mut left = len;
+                    while left > 0 && o.len() < 6 {
+                        let k = match self.rng.below(4) { 0 => 1, 1 => left, _ => self.rng.range(1, left as u64) as usize };
+                        o.push(Wr::Wrote(k));
+                        left -= k;
+                        if self.rng.chance(1, 3) { break; }
+                    }
+                    if left > 0 { o.push(Wr::Block); }
+                    let mut r = self.rng.fork();
+                    self.w.stream(Some(o), None, &mut r);
+                }
+                _ => self.w.peek_out(),
+            }
+        }
+        for &ch in &ids {
+            self.w.event_chan(ch);
+        }
+        self.flush_all();
+        self.w.peek_out();
     }
 
     /// C04: replies routed to the channel they arrive on, in order, with their values
